@@ -13,6 +13,7 @@ import (
 	"encoding/json"
 	"fmt"
 	"math"
+	"math/rand"
 	"os"
 	"strconv"
 	"strings"
@@ -277,3 +278,35 @@ func Perm(label string, n int) []int {
 
 // RealMode reports whether floats are mathematical reals on this run.
 func RealMode() bool { return st.rf.RealMode }
+
+// NewRand returns a generator whose Float64 values are solver variables in
+// [0,1) under the engine; natively they are replayed from the model
+// (NormFloat64 etc. are not replayable natively and come from a fixed seed).
+func NewRand() *rand.Rand { return rand.New(&replaySource{}) }
+
+type replaySource struct{}
+
+var lastRand float64
+
+func (r *replaySource) Seed(int64) {}
+func (r *replaySource) Int63() int64 {
+	if st.pos < len(st.rf.Inputs) && st.rf.Inputs[st.pos].Label == "rand.Float64" {
+		f := parseF(next("rand.Float64", "f64"))
+		if f < 0 {
+			f = 0
+		}
+		if f >= 1 {
+			f = math.Nextafter(1, 0)
+		}
+		lastRand = f
+		return int64(f * (1 << 63)) // (*rand.Rand).Float64 is float64(Int63()) / (1<<63)
+	}
+	// not a replayed Float64 (e.g. NormFloat64): deterministic filler
+	fallback = fallback*6364136223846793005 + 1442695040888963407
+	return int64(fallback >> 1)
+}
+
+var fallback uint64 = 0x9e3779b97f4a7c15
+
+// LastRandFloat returns the last value handed out by a NewRand generator's Float64.
+func LastRandFloat() float64 { return lastRand }
